@@ -944,6 +944,9 @@ func (env *SpecEnv) refEq(a, b SVal) Term {
 			case SSlice:
 				// a slice is nil iff its ref is 0
 				return Term{}
+			case SOpaque:
+				// function values and other opaque sorts have one nil constant each
+				return env.vc.zeroOfSort(o.T.T, nil)
 			}
 		}
 		return mk("0", sortRef)
@@ -1287,6 +1290,17 @@ func (env *SpecEnv) callExpr(e *SExpr) SVal {
 		t := tSelect(vc.heapGet(env.st.heap, comp), mk("(iref "+x.T.S+")", sortRef))
 		t.T = vc.sortOf(dt)
 		return vc.svalOfLoaded(t, dt)
+	case "ptr":
+		// ptr(T, r): the pointer of type *T whose reference is the integer r (inverse of ref)
+		if len(e.Args) != 2 {
+			env.fail("ptr(T, ref)")
+		}
+		_, gt := env.binderSort(e.Args[0].String())
+		if gt == nil {
+			env.fail("unknown type %s", e.Args[0].String())
+		}
+		r := env.termOrLoad(env.eval(e.Args[1]))
+		return vc.svalOfLoaded(r, types.NewPointer(gt))
 	case "ghost":
 		if len(e.Args) != 1 || e.Args[0].Op != "id" {
 			env.fail("ghost(NAME)")
